@@ -63,8 +63,8 @@ def conn_family(cx, model, gen_prop, n_quick, n_thorough, consts_thorough=None, 
 
 def c05(cx):
     return conn_family(
-        cx, "MC_C05", "C05", 300, 5000, flow=True,
-        consts_thorough={"MaxOps": 4, "MaxOpsMulti": 2},
+        cx, "MC_C05", "C05", 300, 15000, flow=True,
+        consts_thorough={"MaxOps": 5, "MaxOpsMulti": 2},
         rule="TLC enumerates every simple Query script of the bounded model (parser outcome blank/error/0..3 "
              "statements x every result-writer program up to MaxOps operations + return) and exports one behaviour "
              "per explored client step; a seeded generator adds longer random sessions (up to 5 queries x 3 "
@@ -75,7 +75,7 @@ def c05(cx):
 
 def c06(cx):
     return conn_family(
-        cx, "MC_C06", "C06", 500, 10000, flow=True,
+        cx, "MC_C06", "C06", 500, 30000, flow=True,
         consts_thorough={"Rich": "TRUE", "MaxSends": 8},   # 1.2 M states, 82 s single worker (measured); 9: 2.3 M, 157 s
         rule="TLC explores every history of extended-protocol messages over names {'',a} x portals {'',p} (known/"
              "unknown, parser and handler success/failure, interleaved simple queries; thorough adds Close, NoData "
@@ -88,7 +88,7 @@ def c06(cx):
 
 def c07(cx):
     return conn_family(
-        cx, "MC_C07", "C07", 500, 10000,
+        cx, "MC_C07", "C07", 500, 30000,
         consts_thorough={"MaxVer": 3},
         extra_models=[("MC_C07", "MC_C07_cache.cfg", None, {"MaxSends": 11})],
         rule="With user-supplied statement and portal caches (options Statements / Portals, second model configuration "
@@ -103,7 +103,7 @@ def c07(cx):
 
 def c08(cx):
     return conn_family(
-        cx, "MC_C08", "C08", 300, 5000,
+        cx, "MC_C08", "C08", 300, 15000,
         consts_thorough={"MaxParams": 3},
         rule="TLC enumerates every Bind of the bounded model: 0..MaxParams parameters x {NULL, empty, ordinary, "
              "NUL-containing} x every admissible parameter-format list (none/one/positional) x every admissible "
@@ -117,8 +117,8 @@ def c08(cx):
 
 def c17(cx):
     return conn_family(
-        cx, "MC_C17", "C17", 500, 10000,
-        consts_thorough={"MaxLayers": 3},
+        cx, "MC_C17", "C17", 500, 30000,
+        consts_thorough={"MaxLayers": 4},
         rule="TLC enumerates every decorator stack up to MaxLayers layers over 12 layer values (2 codes, 2 severities, "
              "2 hints, detail, constraint, 2 wraps, 2 sources), returned by a statement function and by the parser, and "
              "checks the flattening rules (outermost wins, defaults) on the operators; each error is built with the real "
@@ -130,8 +130,8 @@ def c17(cx):
 
 def c13(cx):
     return conn_family(
-        cx, "MC_C13", "C13", 500, 10000, flow=True,
-        consts_thorough={"MaxCopy": 5},
+        cx, "MC_C13", "C13", 500, 30000, flow=True,
+        consts_thorough={"MaxCopy": 7},
         rule="TLC explores every sequence of up to MaxCopy client messages over {CopyData x2 payloads, CopyDone, CopyFail, "
              "Flush, Sync, simple Query, unknown message} following a CopyInResponse, for handlers that read to the end "
              "(propagating a failed read), stop after one chunk and complete, or stop and fail, over 1-2 columns and both "
@@ -143,8 +143,8 @@ def c13(cx):
 
 def c01(cx):
     return conn_family(
-        cx, "MC_C01", "C01", 1000, 20000, flow=True,
-        consts_thorough={"MaxAfter": 3},
+        cx, "MC_C01", "C01", 1000, 60000, flow=True,
+        consts_thorough={"MaxAfter": 5},
         rule="TLC explores the clear-text authentication of the bounded model: every validator outcome (accept/reject/"
              "fail), every message in place of the password (Query, Parse, Sync, Terminate, unknown, unterminated / "
              "oversized / undersized password message, end of input), with and without a refused SSLRequest before, and "
@@ -158,8 +158,8 @@ def c01(cx):
 
 def c12(cx):
     rule = conn_family(
-        cx, "MC_C12", "C12", 1000, 20000, flow=True,
-        consts_thorough={"MaxKvs": 3},
+        cx, "MC_C12", "C12", 1000, 60000, flow=True,
+        consts_thorough={"MaxKvs": 4},
         rule="TLC explores startup negotiation on the bounded model: every startup packet of up to MaxKvs pairs over 3 "
              "keys x {value, empty} (duplicates, missing terminator), 4 configured parameter maps (empty, plain, colliding "
              "with the built-in keys), version set/unset, auth on/off, refused SSL before, CancelRequest at each stage - "
@@ -182,8 +182,8 @@ def c12(cx):
 
 def c19(cx):
     return conn_family(
-        cx, "MC_C19", "C19", 1000, 20000, flow=True,
-        consts_thorough={"MaxMw": 4, "MaxCmds": 4},
+        cx, "MC_C19", "C19", 1000, 60000, flow=True,
+        consts_thorough={"MaxMw": 4, "MaxCmds": 5},
         rule="TLC explores the session lifecycle on the bounded model: every list of up to MaxMw middlewares each "
              "succeeding or failing, auth on/off, terminate hook registered or not, every command history up to MaxCmds "
              "commands over simple Query (1-2 statements), Parse/Bind/Execute/Sync and Terminate; it checks middleware "
@@ -197,8 +197,8 @@ def c19(cx):
 def c10(cx):
     limits = "16,17,64,4095,4096,4097,8192,65536" + (",0,-1" if cx.tier == "thorough" else "")
     return conn_family(
-        cx, "MC_C10", "C10", 600, 10000, flow=True,
-        consts_thorough={"MaxSends": 5},
+        cx, "MC_C10", "C10", 600, 30000, flow=True,
+        consts_thorough={"MaxSends": 6},
         extra_models=[("MC_C10", "MC_C10pre.cfg", None, None, "C10pre")],
         play_extra=["-limits", limits],
         rule="TLC explores, for a symbolic limit L, sessions of up to MaxSends messages over: Query with body exactly L, "
@@ -213,8 +213,8 @@ def c10(cx):
 
 def c20(cx):
     return conn_family(
-        cx, "MC_C20", "C20", 2000, 50000,
-        consts_thorough={"MaxToks": 4},
+        cx, "MC_C20", "C20", 2000, 150000,
+        consts_thorough={"MaxToks": 5},
         rule="ParseParameters is transcribed into TLA+ (PgOps.CountParams) and TLC enumerates every query of up to MaxToks "
              "tokens over text, '?' and '$n' with n in {0,1,2,3,5,65535} or beyond the 65535 limit (up to > 2^64), "
              "checking the counting rules on the operator; each query is rendered with random filler text, the real "
@@ -298,8 +298,8 @@ def c14(cx):
 
 def c09(cx):
     return conn_family(
-        cx, "MC_C09", "C09", 600, 12000,
-        consts_thorough={"MaxCols": 3},
+        cx, "MC_C09", "C09", 600, 36000,
+        consts_thorough={"MaxCols": 4},
         rule="TLC enumerates every row of 1..MaxCols cells over {value, untyped nil, nil pointer, invalid nullable, non-NULL "
              "empty} under the simple protocol and under every admissible result-format list of the extended protocol "
              "(Parse, Bind, Describe portal, Execute, Sync), checking arity and NULL/empty marking on the model; the "
@@ -422,7 +422,7 @@ def c18(cx):
 
 def c11(cx):
     return conn_family(
-        cx, "MC_C11", "C11", 400, 6000,
+        cx, "MC_C11", "C11", 400, 18000,
         rule="TLC explores the TLS negotiation on the bounded model: server without TLS configuration, with an empty "
              "certificate list, with a certificate; client starting in plaintext, sending SSLRequest (alone, with plaintext "
              "stuffed behind it in the same segment, with plaintext pushed in a later segment before the handshake), "
